@@ -10,10 +10,10 @@ mod kinds;
 pub type Input = HashMap<String, String>;
 
 pub fn words(s: &str) -> Vec<i64> {
-    s.split_whitespace().map(|w| w.parse::<i64>().expect("word")).collect()
+    s.split_whitespace().map(|w| w.parse::<i64>().expect("REPLAY-HARNESS: word")).collect()
 }
 pub fn bytes(s: &str) -> Vec<u8> {
-    s.split_whitespace().map(|w| w.parse::<u8>().expect("byte")).collect()
+    s.split_whitespace().map(|w| w.parse::<u8>().expect("REPLAY-HARNESS: byte")).collect()
 }
 pub fn get<'a>(i: &'a Input, k: &str) -> &'a str {
     i.get(k).map(|s| s.as_str()).unwrap_or("")
